@@ -228,6 +228,7 @@ type c20Case struct {
 	undefH   bool
 	ctxN     int // -1 none, else ArgCountEquals(n)
 	args     []akind
+	apply    bool // the call is written arg ~> $f
 }
 
 func c20Gen(rr *prng.R) c20Case {
@@ -280,6 +281,9 @@ func c20Gen(rr *prng.R) c20Case {
 		}
 		c.args = append(c.args, c20Args[rr.Intn(len(c20Args))])
 	}
+	// a single argument that is not a function can also be supplied by the
+	// application operator: v ~> $f calls $f(v), in the same context
+	c.apply = len(c.args) == 1 && !strings.HasPrefix(c.args[0].Name, "function") && rr.Intn(2) == 0
 	return c
 }
 
@@ -343,6 +347,9 @@ func c20Call(r *fw.Rec, rr *prng.R) {
 		texts[i], kinds[i] = a.Text, a.Name
 	}
 	prog := "ctx.$" + name + "(" + strings.Join(texts, ", ") + ")"
+	if c.apply {
+		prog = "ctx.((" + texts[0] + ") ~> $" + name + ")"
+	}
 	var pnames []string
 	for _, p := range c.params {
 		pnames = append(pnames, p.Name)
